@@ -36,7 +36,7 @@ theorem popLoop_spec {g : Graph} {results : List Key} (P : Params α) {den : Key
       Inv g results s' ∧
       args'.map (·.1) = s.ready.take n ∧ (∀ p ∈ args', p.2 = den p.1) ∧
       preKeys log' = s.ready.take n ∧ postKeys log' = [] ∧
-      (∀ e ∈ log', ∃ k, e.1 = Ev.pretask k ∧
+      (∀ e ∈ log', ∃ k, e.1 = Ev.pretask k ∧ e.2.cache = s.cache ∧
         ∀ d ∈ e.2.depsOf k, e.2.cache.get? d = some (den d) ∧ done g e.2 d) ∧
       s'.ready = s.ready.drop n ∧ (∀ j, j ∈ s'.running ↔ j ∈ s.running ∨ j ∈ s.ready.take n) ∧
       s'.cache = s.cache ∧ s'.finished = s.finished ∧ s'.released = s.released ∧ s'.waiting = s.waiting ∧
@@ -101,13 +101,14 @@ theorem popLoop_spec {g : Graph} {results : List Key} (P : Params α) {den : Key
         exact hpost
       · intro e he
         rcases List.mem_cons.mp he with rfl | he
-        · refine ⟨key, rfl, ?_⟩
+        · refine ⟨key, rfl, rfl, ?_⟩
           intro d hd
           have : (popState s key ready).depsOf key = deps := depsOf_of_get hdeps
           rw [this] at hd
           refine ⟨hdc d hd, ?_⟩
           exact hinv1.activeDone key (Or.inr (Or.inl (mem_sadd.mpr (Or.inl rfl)))) d (by rw [this]; exact hd)
-        · exact hev e he
+        · obtain ⟨k', hk', hc', hr'⟩ := hev e he
+          exact ⟨k', hk', hc', hr'⟩
       · simpa [popState] using hready
       · intro j
         rw [hrun j]
